@@ -8,6 +8,7 @@ import Geo.JoinMeet
 import Geo.Transform
 import Geo.Indexing
 import Geo.Arith
+import Geo.Spec.Euclid
 open Geo
 
 def absLeQ (a b : Q) : Bool := decide (Gauss.normSq a ≤ Gauss.normSq b)
@@ -243,6 +244,27 @@ def dispatch (op : String) (args : List String) : String :=
       let p := cyclePerm r perm
       let t := transposeTypes p cov con
       s!"ok {showNatList "." p} {showNatList "." t.1} {showNatList "." t.2}"
+    | _, _, _, _ => "bad-op"
+  | "spec.dist2", [p, q] => match parseVec p, parseVec q with
+    | some p, some q => "ok " ++ showQ (Spec.dist2 p q)
+    | _, _ => "bad-op"
+  | "spec.foot", [h, p] | "spec.mirror", [h, p] => match parseVec h, parseVec p with
+    | some h, some p => "ok " ++ showTens ⟨[p.length], ((if op == "spec.foot" then Spec.footHyper h p else Spec.mirrorHyper h p)).toArray⟩
+    | _, _ => "bad-op"
+  | "spec.dist2hyper", [h, p] => match parseVec h, parseVec p with
+    | some h, some p => "ok " ++ showQ (Spec.dist2Hyper h p)
+    | _, _ => "bad-op"
+  | "spec.footline", [a, b, p] | "spec.mirrorline", [a, b, p] => match parseVec a, parseVec b, parseVec p with
+    | some a, some b, some p => "ok " ++ showTens ⟨[p.length], ((if op == "spec.footline" then Spec.footLine a b p else Spec.mirrorLine a b p)).toArray⟩
+    | _, _, _ => "bad-op"
+  | "spec.dist2line", [a, b, p] => match parseVec a, parseVec b, parseVec p with
+    | some a, some b, some p => "ok " ++ showQ (Spec.dist2Line a b p)
+    | _, _, _ => "bad-op"
+  | "spec.angle", [a, b, c] => match parseVec a, parseVec b, parseVec c with
+    | some a, some b, some c => let r := Spec.angle2 a b c; s!"ok {showQ r.1} {showQ r.2}"
+    | _, _, _ => "bad-op"
+  | "spec.cr", [a, b, c, d] => match parseQ a, parseQ b, parseQ c, parseQ d with
+    | some a, some b, some c, some d => "ok " ++ showQ (Spec.crParam a b c d)
     | _, _, _, _ => "bad-op"
   | "ixmap", r :: comps => match r.toNat?, comps.mapM parseIx with
     | some r, some cs => showMapping (indexMapping r cs)
